@@ -1,6 +1,6 @@
 (* NumbersFacts.v -- proofs about Numbers.v (C17): printing and reading digits, the split of a rendered lexeme,
    _strip_zeros and the leading-zero surgery on rendered lexemes, rounding, and the round-trip theorems.      *)
-From Coq Require Import QArith Qabs Qround Lqa Lia.
+From Coq Require Import QArith Qabs Qround Qpower Lqa Lia.
 From CssV Require Import Base Regex Gen.NumConsts Numbers.
 Local Open Scope Z_scope.
 
@@ -738,3 +738,364 @@ Section RoundTrip.
       + destruct (Hint' eq_refl) as [_ E]. rewrite E, Hq. apply out_q_intlike. apply Hnone. reflexivity.
   Qed.
 End RoundTrip.
+
+(* ------------------------------------------------------------------ binary64: dbl_exec satisfies binary64_like *)
+Definition two : Q := 2 # 1.
+Lemma two_pos : 0 < two. Proof. reflexivity. Qed.
+Lemma two_nz : ~ two == 0. Proof. discriminate. Qed.
+Lemma pow2_pos e : 0 < two ^ e. Proof. apply Qpower_0_lt, two_pos. Qed.
+Lemma pow2_Z e : (0 <= e)%Z -> inject_Z (2 ^ e) == two ^ e.
+Proof. intros H. rewrite Zpower_Qpower by assumption. reflexivity. Qed.
+Lemma pow2_inv e : two ^ (- e) * two ^ e == 1.
+Proof. rewrite Qpower_opp. field. apply Qpower_not_0, two_nz. Qed.
+
+Lemma Qmake_inject p dd : (Zpos p # dd) * inject_Z (Zpos dd) == inject_Z (Zpos p).
+Proof. unfold Qeq, Qmult, inject_Z. cbn. lia. Qed.
+
+(* a / b = q / 2^e for (a, b) = scaled n d e *)
+Lemma scaled_spec p dd e :
+  let a := fst (scaled (Zpos p) (Zpos dd) e) in let b := snd (scaled (Zpos p) (Zpos dd) e) in
+  (0 < a)%Z /\ (0 < b)%Z /\ inject_Z a == (Zpos p # dd) * two ^ (- e) * inject_Z b.
+Proof.
+  unfold scaled. destruct (Z.leb_spec 0 e) as [He|He]; cbn [fst snd].
+  - split; [lia|]. split; [apply Z.mul_pos_pos; [lia|apply Z.pow_pos_nonneg; lia]|].
+    rewrite inject_Z_mult, pow2_Z by assumption.
+    rewrite <- (Qmake_inject p dd) at 1.
+    transitivity ((Z.pos p # dd) * inject_Z (Z.pos dd) * (two ^ (- e) * two ^ e)); [rewrite pow2_inv; ring|ring].
+  - split; [apply Z.mul_pos_pos; [lia|apply Z.pow_pos_nonneg; lia]|]. split; [lia|].
+    rewrite inject_Z_mult, pow2_Z by lia. rewrite <- (Qmake_inject p dd). ring.
+Qed.
+
+(* rounding a / b to the nearest integer is within 1/2 of the exact quotient X *)
+Lemma rne_Q a b X :
+  (0 < a)%Z -> (0 < b)%Z -> inject_Z a == X * inject_Z b ->
+  Qabs (inject_Z (rne_div a b) - X) <= 1 # 2.
+Proof.
+  intros Ha Hb HX. pose proof (rne_div_err a b ltac:(lia) Hb) as E.
+  set (m := rne_div a b) in *.
+  assert (HB : 0 < inject_Z b) by (unfold Qlt, inject_Z; cbn; lia).
+  assert (E1 : inject_Z (2 * (m * b - a)) <= inject_Z b) by (rewrite <- Zle_Qle; lia).
+  assert (E2 : inject_Z (- b) <= inject_Z (2 * (m * b - a))) by (rewrite <- Zle_Qle; lia).
+  unfold Z.sub in E1, E2. rewrite inject_Z_mult, inject_Z_plus, inject_Z_opp, inject_Z_mult in E1, E2.
+  rewrite inject_Z_opp in E2. rewrite HX in E1, E2. change (inject_Z 2) with (2 # 1) in *.
+  set (M := inject_Z m) in *. set (B := inject_Z b) in *.
+  apply Qabs_Qle_condition. split.
+  - apply (Qmult_le_r _ _ B HB). lra.
+  - apply (Qmult_le_r _ _ B HB). lra.
+Qed.
+
+Lemma q_of_me_spec m e : q_of_me m e == inject_Z m * two ^ e.
+Proof.
+  unfold q_of_me. destruct (Z.leb_spec 0 e) as [He|He].
+  - rewrite inject_Z_mult, pow2_Z by assumption. reflexivity.
+  - rewrite Qred_correct.
+    assert (K : (0 < 2 ^ (- e))%Z) by (apply Z.pow_pos_nonneg; lia).
+    rewrite Qmake_Qdiv, Z2Pos.id by assumption. rewrite pow2_Z by lia.
+    rewrite Qpower_opp. unfold Qdiv. rewrite Qinv_involutive. reflexivity.
+Qed.
+
+Definition c52 : Q := inject_Z (2 ^ 52).
+Definition c53 : Q := inject_Z (2 ^ 53).
+Lemma c52_pow : two ^ 52 == c52. Proof. reflexivity. Qed.
+
+Lemma inject_pos z : (0 < z)%Z -> 0 < inject_Z z.
+Proof. intros H. unfold Qlt, inject_Z; cbn; lia. Qed.
+
+Lemma X0_bound p dd :
+  c52 <= (Zpos p # dd) * two ^ (- (Z.log2 (Zpos p) - Z.log2 (Zpos dd) - 53)).
+Proof.
+  set (n := Zpos p). set (d := Zpos dd). set (q := n # dd).
+  set (ln := Z.log2 n). set (ld := Z.log2 d).
+  destruct (Z.log2_spec n ltac:(reflexivity)) as [Hn1 _]. destruct (Z.log2_spec d ltac:(reflexivity)) as [_ Hd2].
+  fold ln in Hn1. fold ld in Hd2.
+  assert (Hln : (0 <= ln)%Z) by apply Z.log2_nonneg. assert (Hld : (0 <= ld)%Z) by apply Z.log2_nonneg.
+  assert (HN : two ^ ln <= inject_Z n) by (rewrite <- pow2_Z by assumption; rewrite <- Zle_Qle; assumption).
+  assert (HD : inject_Z d <= two ^ (ld + 1)).
+  { rewrite <- pow2_Z by lia. rewrite <- Zle_Qle. replace (Z.succ ld) with (ld + 1)%Z in Hd2 by lia. lia. }
+  assert (Hq : 0 <= q) by (unfold q, Qle; cbn; lia).
+  assert (HqD : q * inject_Z d == inject_Z n) by apply Qmake_inject.
+  replace (- (ln - ld - 53))%Z with ((ld + 1) + 52 + (- ln))%Z by lia.
+  rewrite (Qpower_plus two (ld + 1 + 52) (- ln)) by apply two_nz.
+  rewrite (Qpower_plus two (ld + 1) 52) by apply two_nz. rewrite c52_pow.
+  set (U := two ^ (ld + 1)) in *. set (L := two ^ ln) in *. set (Li := two ^ (- ln)).
+  assert (HLi : 0 < Li) by apply pow2_pos.
+  assert (HLL : Li * L == 1) by apply pow2_inv.
+  assert (c52pos : 0 < c52) by reflexivity.
+  assert (H1 : inject_Z n <= q * U).
+  { rewrite <- HqD. rewrite (Qmult_comm q (inject_Z d)), (Qmult_comm q U). apply Qmult_le_compat_r; assumption. }
+  assert (H2 : L <= q * U) by (eapply Qle_trans; eassumption).
+  assert (H3 : L * (c52 * Li) <= q * U * (c52 * Li)).
+  { apply Qmult_le_compat_r; [assumption|]. apply Qlt_le_weak. apply Qmult_lt_0_compat; assumption. }
+  setoid_replace (L * (c52 * Li)) with (c52 * (Li * L)) in H3 by ring. rewrite HLL in H3.
+  setoid_replace (q * (U * c52 * Li)) with (q * U * (c52 * Li)) by ring. lra.
+Qed.
+
+Lemma e1_bound p dd :
+  let n := Zpos p in let d := Zpos dd in
+  let e0 := (Z.log2 n - Z.log2 d - 53)%Z in
+  let e1 := if (fst (scaled n d e0) / snd (scaled n d e0) <? 2 ^ 53)%Z then e0 else (e0 + 1)%Z in
+  c52 <= (n # dd) * two ^ (- e1).
+Proof.
+  intros n d e0 e1. pose proof (X0_bound p dd) as H0. fold n d e0 in H0.
+  unfold e1. destruct (Z.ltb_spec (fst (scaled n d e0) / snd (scaled n d e0)) (2 ^ 53)) as [Hlt|Hge]; [exact H0|].
+  destruct (scaled_spec p dd e0) as (Ha & Hb & HX). fold n d in Ha, Hb, HX.
+  set (a := fst (scaled n d e0)) in *. set (b := snd (scaled n d e0)) in *.
+  set (X0 := (n # dd) * two ^ (- e0)) in *.
+  assert (Hz : (2 ^ 53 * b <= a)%Z).
+  { pose proof (Z.mul_div_le a b Hb). nia. }
+  assert (HB : 0 < inject_Z b) by (apply inject_pos; assumption).
+  assert (Hq : inject_Z (2 ^ 53 * b) <= inject_Z a) by (rewrite <- Zle_Qle; assumption).
+  rewrite inject_Z_mult, HX in Hq. fold c53 in Hq.
+  apply (proj1 (Qmult_le_r _ _ _ HB)) in Hq.
+  replace (- (e0 + 1))%Z with (- e0 + (-1))%Z by lia. rewrite Qpower_plus by apply two_nz.
+  change (two ^ (-1)) with (1 # 2). rewrite Qmult_assoc. fold X0.
+  assert (C : c53 == c52 * (2 # 1)) by reflexivity. clearbody X0. lra.
+Qed.
+
+Lemma half_ulp_tiny : two ^ (-1074) * (1 # 2) == tiny.
+Proof. vm_compute. reflexivity. Qed.
+
+Lemma dbl_pos_spec p dd :
+  0 <= dbl_pos (Zpos p) (Zpos dd) /\
+  Qabs (dbl_pos (Zpos p) (Zpos dd) - (Zpos p # dd)) <= (Zpos p # dd) * eps53 + tiny.
+Proof.
+  unfold dbl_pos. set (n := Zpos p). set (d := Zpos dd). set (q := n # dd).
+  set (e0 := (Z.log2 n - Z.log2 d - 53)%Z).
+  set (e1 := if (fst (scaled n d e0) / snd (scaled n d e0) <? 2 ^ 53)%Z then e0 else (e0 + 1)%Z).
+  pose proof (e1_bound p dd) as HE1. cbv zeta in HE1. fold n d e0 e1 q in HE1.
+  set (e := Z.max e1 (-1074)).
+  destruct (scaled_spec p dd e) as (Ha & Hb & HX). fold n d q in Ha, Hb, HX.
+  set (a := fst (scaled n d e)) in *. set (b := snd (scaled n d e)) in *.
+  set (X := q * two ^ (- e)) in *.
+  pose proof (rne_Q a b X Ha Hb HX) as HR.
+  pose proof (rne_div_nonneg a b ltac:(lia) Hb) as Hm.
+  set (m := rne_div a b) in *. rewrite q_of_me_spec.
+  set (M := inject_Z m) in *. set (P := two ^ e).
+  assert (HP : 0 < P) by apply pow2_pos.
+  assert (HM : 0 <= M) by (unfold M, Qle, inject_Z; cbn; lia).
+  assert (Hq0 : 0 <= q) by (unfold q, Qle; cbn; lia).
+  assert (HqXP : q == X * P).
+  { unfold X, P. rewrite <- Qmult_assoc, pow2_inv. ring. }
+  split; [apply Qmult_le_0_compat; [assumption|apply Qlt_le_weak; assumption]|].
+  assert (Hd : Qabs (M * P - q) <= P * (1 # 2)).
+  { setoid_replace (M * P - q) with ((M - X) * P) by (rewrite HqXP; ring).
+    rewrite Qabs_Qmult, (Qabs_pos P) by (apply Qlt_le_weak; assumption).
+    rewrite (Qmult_comm P). apply Qmult_le_compat_r; [assumption|apply Qlt_le_weak; assumption]. }
+  eapply Qle_trans; [exact Hd|].
+  assert (Ht0 : 0 <= tiny) by discriminate.
+  destruct (Z.max_spec e1 (-1074)) as [[Hlt Hmax]|[Hge Hmax]]; fold e in Hmax.
+  - (* clamped to the subnormal exponent *)
+    unfold P. rewrite Hmax, half_ulp_tiny.
+    assert (0 <= q * eps53) by (apply Qmult_le_0_compat; [assumption|discriminate]). lra.
+  - (* normal: X >= 2^52 *)
+    assert (HX52 : c52 <= X) by (unfold X; rewrite Hmax; exact HE1).
+    assert (Hq52 : c52 * P <= q).
+    { rewrite HqXP. apply Qmult_le_compat_r; [assumption|apply Qlt_le_weak; assumption]. }
+    unfold eps53, c52 in *. change (inject_Z (2 ^ 52)) with (4503599627370496 # 1) in Hq52. lra.
+Qed.
+
+Lemma dbl_core_spec q :
+  Qabs (dbl_core q - q) <= Qabs q * eps53 + tiny /\ (0 <= q -> 0 <= dbl_core q) /\ (q <= 0 -> dbl_core q <= 0).
+Proof.
+  destruct q as [[|p|p] dd]; unfold dbl_core; cbn [Qnum Qden].
+  - assert (E : 0 # dd == 0) by reflexivity. rewrite E. split; [|split; intros _; apply Qle_refl].
+    cbn. discriminate.
+  - destruct (dbl_pos_spec p dd) as [H0 H1].
+    assert (Hq : 0 <= Zpos p # dd) by (unfold Qle; cbn; lia).
+    rewrite (Qabs_pos _ Hq). split; [exact H1|]. split; [intros _; exact H0|].
+    intros Hn. exfalso. unfold Qle in Hn. cbn in Hn. lia.
+  - destruct (dbl_pos_spec p dd) as [H0 H1].
+    assert (E : Zneg p # dd == - (Zpos p # dd)) by reflexivity.
+    assert (Hq : 0 <= Zpos p # dd) by (unfold Qle; cbn; lia).
+    rewrite E, Qabs_opp, (Qabs_pos _ Hq). split; [|split].
+    + setoid_replace (- dbl_pos (Z.pos p) (Z.pos dd) - - (Z.pos p # dd))
+        with (- (dbl_pos (Z.pos p) (Z.pos dd) - (Z.pos p # dd))) by ring.
+      rewrite Qabs_opp. exact H1.
+    + intros Hp. assert (Zpos p # dd <= 0) by lra. unfold Qle in H. cbn in H. lia.
+    + intros _. lra.
+Qed.
+
+Theorem dbl_exec_binary64 : binary64_like dbl_exec.
+Proof.
+  unfold binary64_like, dbl_exec. repeat split.
+  - intros q _. pose proof (Qred_correct q) as E. destruct (dbl_core_spec (Qred q)) as (H & _ & _).
+    set (r := Qred q) in *. rewrite <- E. exact H.
+  - intros q Hq. pose proof (Qred_correct q) as E. destruct (dbl_core_spec (Qred q)) as (_ & H & _).
+    apply H. rewrite E. exact Hq.
+  - intros q Hq. pose proof (Qred_correct q) as E. destruct (dbl_core_spec (Qred q)) as (_ & _ & H).
+    apply H. rewrite E. exact Hq.
+  - intros q q' E. rewrite (Qred_complete q q' E). reflexivity.
+Qed.
+
+(* exactness on representable values: m * 2^e with |m| < 2^53, e >= -1074 *)
+Lemma rne_div_exact k b : (0 < b)%Z -> rne_div (k * b) b = k.
+Proof.
+  intros Hb. unfold rne_div. rewrite Z.div_mul, Z.mod_mul by lia.
+  destruct (Z.compare_spec (2 * 0) b); lia.
+Qed.
+
+Lemma dbl_pos_exact p dd m e' :
+  (0 < m < 2 ^ 53)%Z -> (-1074 <= e')%Z -> Zpos p # dd == inject_Z m * two ^ e' ->
+  dbl_pos (Zpos p) (Zpos dd) == Zpos p # dd.
+Proof.
+  intros Hm He' Hq. unfold dbl_pos. set (n := Zpos p). set (d := Zpos dd). set (q := n # dd) in *.
+  change (q == inject_Z m * two ^ e') in Hq.
+  set (e0 := (Z.log2 n - Z.log2 d - 53)%Z).
+  set (e1 := if (fst (scaled n d e0) / snd (scaled n d e0) <? 2 ^ 53)%Z then e0 else (e0 + 1)%Z).
+  pose proof (e1_bound p dd) as HE1. cbv zeta in HE1. fold n d e0 e1 q in HE1.
+  set (e := Z.max e1 (-1074)).
+  assert (HM : inject_Z m <= c53 - 1).
+  { assert (inject_Z m <= inject_Z (2 ^ 53 - 1)) by (rewrite <- Zle_Qle; lia).
+    assert (inject_Z (2 ^ 53 - 1) == c53 - 1) by reflexivity. lra. }
+  assert (HM0 : 0 < inject_Z m) by (apply inject_pos; lia).
+  assert (Hle1 : (e1 <= e')%Z).
+  { destruct (Z.le_gt_cases e1 e') as [|Hgt]; [assumption|exfalso].
+    rewrite Hq in HE1. rewrite <- Qmult_assoc, <- Qpower_plus in HE1 by apply two_nz.
+    assert (Hp : two ^ (e' + - e1) <= two ^ (-1)).
+    { apply Qpower_le_compat_l; [lia|discriminate]. }
+    change (two ^ (-1)) with (1 # 2) in Hp.
+    assert (Hpp : 0 < two ^ (e' + - e1)) by apply pow2_pos.
+    set (T := two ^ (e' + - e1)) in *. set (M := inject_Z m) in *.
+    assert (M * T <= M * (1 # 2)).
+    { rewrite (Qmult_comm M T), (Qmult_comm M (1 # 2)). apply Qmult_le_compat_r; [assumption|apply Qlt_le_weak; assumption]. }
+    assert (C : c53 == c52 * (2 # 1)) by reflexivity. assert (0 < c52) by reflexivity. lra. }
+  assert (Hle : (e <= e')%Z) by (unfold e; lia).
+  destruct (scaled_spec p dd e) as (Ha & Hb & HX). fold n d q in Ha, Hb, HX.
+  set (a := fst (scaled n d e)) in *. set (b := snd (scaled n d e)) in *.
+  set (k := (m * 2 ^ (e' - e))%Z).
+  assert (Hk : q * two ^ (- e) == inject_Z k).
+  { unfold k. rewrite inject_Z_mult, pow2_Z by lia. rewrite Hq, <- Qmult_assoc, <- Qpower_plus by apply two_nz.
+    replace (e' + - e)%Z with (e' - e)%Z by lia. reflexivity. }
+  rewrite Hk, <- inject_Z_mult in HX.
+  assert (HX' : a = (k * b)%Z) by (apply inject_Z_injective; exact HX).
+  rewrite HX', rne_div_exact by assumption. rewrite q_of_me_spec, <- Hk.
+  rewrite <- Qmult_assoc, pow2_inv. ring.
+Qed.
+
+Theorem dbl_exec_exact m e :
+  (Z.abs m < 2 ^ 53)%Z -> (-1074 <= e)%Z -> dbl_exec (inject_Z m * two ^ e) == inject_Z m * two ^ e.
+Proof.
+  intros Hm He. unfold dbl_exec. set (q := inject_Z m * two ^ e).
+  pose proof (Qred_correct q) as E. destruct (Qred q) as [[|p|p] dd] eqn:Er; unfold dbl_core; cbn [Qnum Qden].
+  - rewrite <- E. reflexivity.
+  - rewrite <- E. assert (Hmp : (0 < m)%Z).
+    { assert (Hq : 0 < q) by (rewrite <- E; unfold Qlt; cbn; lia).
+      destruct (Z.lt_trichotomy m 0) as [Hn|[Hz|Hp]]; [| |assumption]; exfalso.
+      - assert (inject_Z m < 0) by (unfold Qlt, inject_Z; cbn; lia).
+        assert (0 < two ^ e) by apply pow2_pos. unfold q in Hq.
+        assert (inject_Z m * two ^ e <= 0 * two ^ e) by (apply Qmult_le_compat_r; [|apply Qlt_le_weak; assumption]; apply Qlt_le_weak; assumption).
+        lra.
+      - subst m. unfold q in Hq. change (inject_Z 0) with 0 in Hq. lra. }
+    apply (dbl_pos_exact p dd m e); [lia|assumption|]. rewrite E. reflexivity.
+  - rewrite <- E. assert (Hmn : (m < 0)%Z).
+    { assert (Hq : q < 0) by (rewrite <- E; unfold Qlt; cbn; lia).
+      destruct (Z.lt_trichotomy m 0) as [Hn|[Hz|Hp]]; [assumption| |]; exfalso.
+      - subst m. unfold q in Hq. change (inject_Z 0) with 0 in Hq. lra.
+      - assert (0 <= inject_Z m * two ^ e).
+        { apply Qmult_le_0_compat; [unfold Qle, inject_Z; cbn; lia|apply Qlt_le_weak, pow2_pos]. }
+        unfold q in Hq. lra. }
+    assert (En : Zneg p # dd == - (Zpos p # dd)) by reflexivity.
+    rewrite En. apply Qopp_comp. apply (dbl_pos_exact p dd (- m) e); [lia|assumption|].
+    rewrite inject_Z_opp. setoid_replace (Zpos p # dd) with (- (Zneg p # dd)) by (rewrite En; ring).
+    rewrite E. unfold q. ring.
+Qed.
+
+(* ------------------------------------------------------------------ rounding never crosses an integer below the value *)
+Lemma dbl_pos_ge_int p dd k :
+  (0 <= k)%Z -> inject_Z k <= Zpos p # dd -> Zpos p # dd <= c52 ->
+  inject_Z k <= dbl_pos (Zpos p) (Zpos dd).
+Proof.
+  intros Hk Hkq Hq52. unfold dbl_pos. set (n := Zpos p). set (d := Zpos dd). set (q := n # dd) in *.
+  change (inject_Z k <= q) in Hkq. change (q <= c52) in Hq52.
+  set (e0 := (Z.log2 n - Z.log2 d - 53)%Z).
+  set (e1 := if (fst (scaled n d e0) / snd (scaled n d e0) <? 2 ^ 53)%Z then e0 else (e0 + 1)%Z).
+  pose proof (e1_bound p dd) as HE1. cbv zeta in HE1. fold n d e0 e1 q in HE1.
+  set (e := Z.max e1 (-1074)).
+  assert (Hq0 : 0 <= q) by (unfold q, Qle; cbn; lia).
+  assert (c52pos : 0 < c52) by reflexivity.
+  assert (He1 : (e1 <= 0)%Z).
+  { destruct (Z.le_gt_cases e1 0) as [|Hgt]; [assumption|exfalso].
+    assert (Hp : two ^ (- e1) <= two ^ (-1)) by (apply Qpower_le_compat_l; [lia|discriminate]).
+    change (two ^ (-1)) with (1 # 2) in Hp.
+    assert (q * two ^ (- e1) <= q * (1 # 2)).
+    { rewrite (Qmult_comm q (two ^ _)), (Qmult_comm q (1 # 2)). apply Qmult_le_compat_r; assumption. }
+    lra. }
+  assert (He : (e <= 0)%Z) by (unfold e; lia).
+  destruct (scaled_spec p dd e) as (Ha & Hb & HX). fold n d q in Ha, Hb, HX.
+  set (a := fst (scaled n d e)) in *. set (b := snd (scaled n d e)) in *.
+  set (X := q * two ^ (- e)) in *.
+  pose proof (rne_Q a b X Ha Hb HX) as HR.
+  set (m := rne_div a b) in *. rewrite q_of_me_spec.
+  set (K := (k * 2 ^ (- e))%Z).
+  assert (HK : inject_Z K == inject_Z k * two ^ (- e)) by (unfold K; rewrite inject_Z_mult, pow2_Z by lia; reflexivity).
+  assert (HKX : inject_Z K <= X).
+  { rewrite HK. unfold X. apply Qmult_le_compat_r; [assumption|apply Qlt_le_weak, pow2_pos]. }
+  assert (HmK : (K <= m)%Z).
+  { apply Qabs_Qle_condition in HR. destruct HR as [HR1 _].
+    assert (Hh : inject_Z K - (1 # 2) <= inject_Z m) by lra.
+    unfold Qle, Qminus, Qplus, Qopp, inject_Z in Hh. cbn in Hh. lia. }
+  assert (HP : 0 < two ^ e) by apply pow2_pos.
+  assert (inject_Z K * two ^ e <= inject_Z m * two ^ e).
+  { apply Qmult_le_compat_r; [rewrite <- Zle_Qle; assumption|apply Qlt_le_weak; assumption]. }
+  assert (Ek : inject_Z K * two ^ e == inject_Z k).
+  { rewrite HK, <- Qmult_assoc, pow2_inv. ring. }
+  rewrite <- Ek. assumption.
+Qed.
+
+Lemma dbl_exec_ge_int k x :
+  (0 <= k)%Z -> inject_Z k <= x -> x <= c52 -> inject_Z k <= dbl_exec x.
+Proof.
+  intros Hk Hkx Hx. unfold dbl_exec. pose proof (Qred_correct x) as E.
+  assert (Hk0 : 0 <= inject_Z k) by (unfold Qle, inject_Z; cbn; lia).
+  destruct (Qred x) as [[|p|p] dd]; unfold dbl_core; cbn [Qnum Qden].
+  - assert (E0 : 0 # dd == 0) by reflexivity. rewrite E0 in E. lra.
+  - apply dbl_pos_ge_int; [assumption|rewrite E; assumption|rewrite E; assumption].
+  - exfalso. assert (Zneg p # dd < 0) by (unfold Qlt; cbn; lia). lra.
+Qed.
+
+Lemma qtrunc_bounds y : 0 <= y -> inject_Z (qtrunc y) <= y /\ y < inject_Z (qtrunc y + 1).
+Proof.
+  destruct y as [a b]. unfold Qle at 1. cbn. intros Ha. unfold qtrunc. cbn [Qnum Qden].
+  rewrite Z.quot_div_nonneg by lia.
+  pose proof (Z.div_mod a (Zpos b) ltac:(lia)). pose proof (Z.mod_pos_bound a (Zpos b) ltac:(lia)).
+  unfold Qle, Qlt, inject_Z. cbn [Qnum Qden].
+  set (B := Zpos b) in *. set (qq := (a / B)%Z) in *. set (r := (a mod B)%Z) in *.
+  rewrite !Z.mul_1_r. clearbody qq r B. split; nia.
+Qed.
+
+(* int(255 * p / 100) for an integer percentage p: one binary64 division, then truncation.  The result is the
+   floor of the exact value 255p/100 or, when the division rounded up to the next integer, that integer:
+   never below the floor, never more than the rounding error above the exact value *)
+Theorem pct_int_spec z :
+  (0 <= z <= 10 ^ 12)%Z ->
+  let x := inject_Z (255 * z) / inject_Z 100 in
+  let t := qtrunc (dbl_exec x) in
+  (Qfloor x <= t)%Z /\ inject_Z t <= x + x * eps53 + tiny /\ Qabs (inject_Z t - x) < 1.
+Proof.
+  intros Hz x t.
+  assert (Hx0 : 0 <= x).
+  { unfold x. apply Qle_shift_div_l; [reflexivity|]. rewrite Qmult_0_l. change 0 with (inject_Z 0). rewrite <- Zle_Qle. lia. }
+  assert (Hx52 : x <= c52).
+  { unfold x. apply Qle_shift_div_r; [reflexivity|]. unfold c52. rewrite <- inject_Z_mult, <- Zle_Qle. lia. }
+  destruct dbl_exec_binary64 as (Herr & Hpos & _ & _).
+  pose proof (Hpos x Hx0) as Hd0.
+  assert (Hmax : Qabs x <= maxq).
+  { rewrite Qabs_pos by assumption. eapply Qle_trans; [exact Hx52|]. vm_compute. discriminate. }
+  pose proof (Herr x Hmax) as He. rewrite (Qabs_pos x Hx0) in He. apply Qabs_Qle_condition in He.
+  destruct (qtrunc_bounds (dbl_exec x) Hd0) as [Ht1 Ht2]. fold t in Ht1, Ht2.
+  pose proof (Qfloor_le x) as Hf1. pose proof (Qlt_floor x) as Hf2.
+  assert (Hfl0 : (0 <= Qfloor x)%Z).
+  { change 0%Z with (Qfloor 0). apply Qfloor_resp_le. assumption. }
+  pose proof (dbl_exec_ge_int (Qfloor x) x Hfl0 Hf1 Hx52) as Hge.
+  assert (Hft : (Qfloor x <= t)%Z).
+  { assert (inject_Z (Qfloor x) < inject_Z (t + 1)) by (eapply Qle_lt_trans; eassumption).
+    rewrite <- Zlt_Qlt in H. lia. }
+  split; [exact Hft|]. split; [lra|].
+  rewrite inject_Z_plus in Hf2, Ht2. change (inject_Z 1) with 1 in *.
+  assert (Hft' : inject_Z (Qfloor x) <= inject_Z t) by (rewrite <- Zle_Qle; assumption).
+  assert (Hsmall : x * eps53 + tiny < 1).
+  { assert (tiny <= 1 # 4) by (vm_compute; discriminate).
+    assert (c52 * eps53 == 1 # 2) by reflexivity.
+    assert (x * eps53 <= c52 * eps53) by (apply Qmult_le_compat_r; [assumption|discriminate]). lra. }
+  apply Qabs_Qlt_condition. split; lra.
+Qed.
